@@ -1570,6 +1570,10 @@ def check(ctx):
     check_query(ctx)
     check_independence(ctx)
     check_transparency(ctx)
+    # "for any reference chunk size": the distance row a result is built from is the same for every chunking (C05-B5 re-evaluated)
+    from . import c05
+    rep.rule('B5', 'C05-B5 re-evaluated: jaccarddist_matrix - one slice selects the reference chunk and the output columns, chunk_slices tiles [0, n), for every chunk size')
+    c05.check_matrix(ctx)
     check_exporters(ctx)
     # "identical whether the genome is passed ... gzip-compressed": the compression / parsing clauses of C06, re-evaluated
     from . import c06
